@@ -99,9 +99,11 @@ def gen_case(rng, i):
     opt = OPTS[i % len(OPTS)]
     val = None
     if opt == "number":
-        val = float(rng.uniform(np.sum(lbv), np.sum(ubv)))
+        # requested totals inside, below and above what the bounds allow
+        val = float(rng.uniform(np.sum(lbv) - 0.5 * np.sum(ubv - lbv), np.sum(ubv) + 0.5 * np.sum(ubv - lbv)))
     elif opt == "vector":
-        val = rng.uniform(lbv, ubv)
+        # requested intensity vectors inside the bounds and with components outside them
+        val = rng.uniform(lbv, ubv) + (rng.random(n) < 0.4) * rng.normal(0, 1, n) * (ubv - lbv)
     wk = "receptor" if rng.integers(3) == 0 else "none"
     s.update({"B": X @ Mt.T + c0, "opt": opt, "val": val, "l2_eps": float(10 ** rng.uniform(-6, -3)),
               "wkind": wk, "W": rng.uniform(0.5, 2, m) if wk == "receptor" else None,
